@@ -69,13 +69,23 @@ extern "C" __attribute__((used)) void T_put1() { op_put(1); }
 extern "C" __attribute__((used)) void T_remove0() { op_remove(0); }
 extern "C" __attribute__((used)) void T_put0() { op_put(0); }
 
-// get(k0) || remove(k1)
-YK_HARNESS H_c01_get_remove() {
+// get(k0) || remove(k1).  A = the thread that may be pre-empted at the hook sites of the query's window, B = the other
+// thread (runs without voluntary pre-emption; it still yields where it waits or retries).  Template A / B / A, then the
+// fair continuation.
+template<int A>
+inline void template_aba() {
+    yk_allow_ctx(0, 1u << A);
+    yk_allow_ctx(1, 1u << (1 - A));
+    yk_allow_ctx(2, 1u << A);
+}
+template<int A>
+inline void c01_get_remove() {
     setup();
+    template_aba<A>();
     int f0 = ref_find(g_st, g_ks[0], g_kl[0]), f1 = ref_find(g_st, g_ks[1], g_kl[1]);
     yk_thread(0, &T_get0);
     yk_thread(1, &T_remove1);
-    yk_run_threads(CTX);
+    yk_run_threads(3);
     quiescent_checks();
     // remove's result does not depend on the get
     YK_ASSERT(g_rc[1] == (f1 >= 0 ? status::OK : status::OK_NOT_FOUND));
@@ -93,5 +103,60 @@ YK_HARNESS H_c01_get_remove() {
     }
     if (same_key() && f0 >= 0 && got) YK_REACH();
     if (same_key() && f0 >= 0 && !got) YK_REACH();
+    YK_REACH();
+}
+YK_HARNESS H_c01_get_remove_a0() { c01_get_remove<0>(); }
+YK_HARNESS H_c01_get_remove_a1() { c01_get_remove<1>(); }
+// development probe: do the flag bits of the root's version word constant-fold in symex?
+YK_HARNESS H_probe_fold() {
+    setup();
+    YK_ASSERT(g_ti.load_root_ptr()->get_version_border());
+    YK_REACH();
+}
+extern "C" __attribute__((used)) void T_probe() { YK_ASSERT(g_ti.load_root_ptr()->get_version_border()); }
+YK_HARNESS H_probe_fold2() {
+    setup();
+    yk_thread(0, &T_probe);
+    yk_thread(1, &T_probe);
+    yk_run_threads(1);
+}
+
+// ---------------------------------------------------------------------------------------------------------------------
+// Intruder mode (DESIGN 10.3b): all schedules with at most TWO context switches.  A = the calling code below (plain),
+// B = the registered intruder: B's whole operation runs inside one hook of A (site fixed per query, visit symbolic).
+namespace {
+template<int A>   // A = index of the pre-empted operation (0: get, 1: remove)
+inline void i_get_remove() {
+    setup();
+    int f0 = ref_find(g_st, g_ks[0], g_kl[0]), f1 = ref_find(g_st, g_ks[1], g_kl[1]);
+    // the serial orders (B never runs inside A) are the kind-N harnesses; here B must have run inside A
+    if (A == 0) { yk_intruder(&T_remove1); T_get0(); yk_intruder(nullptr); }
+    else { yk_intruder(&T_get0); T_remove1(); yk_intruder(nullptr); }
+    if (yk_intruder_state() != 2) yk_stop();
+    bool interleaved = true;
+    quiescent_checks();
+    YK_ASSERT(g_rc[1] == (f1 >= 0 ? status::OK : status::OK_NOT_FOUND));
+    bool hit_pre = f0 >= 0;                       // serial order get;remove
+    bool hit_post = f0 >= 0 && !(same_key());     // serial order remove;get
+    bool got = g_rc[0] == status::OK;
+    YK_ASSERT(g_rc[0] == status::OK || g_rc[0] == status::WARN_NOT_EXIST);
+    if (interleaved) YK_ASSERT(got == hit_pre || got == hit_post); // overlapping operations: either order is a linearization
+    else YK_ASSERT(A == 0 ? got == hit_pre : got == hit_post);     // not pre-empted: program order
+    if (got) {
+        YK_ASSERT(g_out[0].first == static_cast<char*>(value::get_body(g_st.e[f0].val)));
+        YK_ASSERT((unsigned char) *g_out[0].first == g_st.e[f0].vbyte);
+    }
+    if (interleaved && same_key() && f0 >= 0 && got) YK_REACH();
+    if (interleaved && same_key() && f0 >= 0 && !got) YK_REACH();
+    if (interleaved) YK_REACH();
+}
+} // namespace
+YK_HARNESS H_i_get_remove_a0() { i_get_remove<0>(); }
+YK_HARNESS H_i_get_remove_a1() { i_get_remove<1>(); }
+YK_HARNESS H_seq_remove_get() {
+    setup();
+    T_remove1();
+    T_get0();
+    YK_ASSERT(g_rc[0] == status::OK || g_rc[0] == status::WARN_NOT_EXIST);
     YK_REACH();
 }
